@@ -116,6 +116,12 @@ def run(ctx):
         for conc, mode in ((1, "read"), (1, "writeto"), (4, "read")):
             cases.append({"id": len(cases) + 1, "chunks": [], "plan": {"code": 4, "bcs": False, "ccs": conc == 1, "seed": 4242, "blocks": blocks},
                           "cfg": {"conc": conc, "mode": mode, "bufs": [7], "extra": 1}})
+    # stored blocks of exactly the block maximum, with block checksums (block + checksum = 4 bytes more than a block)
+    for code, B_ in ((4, 65536), (5, 262144)):
+        for conc, mode in ((1, "read"), (4, "writeto")):
+            cases.append({"id": len(cases) + 1, "chunks": [], "plan": {"code": code, "bcs": True, "ccs": True, "seed": 6161,
+                                                                      "blocks": [{"size": B_, "kind": "raw"}, {"size": 1000, "kind": "mprev"}, {"size": B_, "kind": "raw"}, {"size": B_ - 1, "kind": "raw"}]},
+                          "cfg": {"conc": conc, "mode": mode, "bufs": [4096], "extra": 1}})
     # several short dependent blocks in a frame that declares a content size below the block maximum (an encoder that flushes
     # often): concurrency above 1 must still fall back to sequential decoding
     for blocks in ([{"size": 1000, "kind": "lits"}, {"size": 1000, "kind": "mprev"}, {"size": 1500, "kind": "mfar"}, {"size": 700, "kind": "mstraddle"}],
